@@ -94,6 +94,11 @@ func genC04(r *Rng) *Scenario {
 	if r.chance(0.3) {
 		cfg.SlowHandlerUs = r.between(10, 600)
 	}
+	if r.chance(0.2) {
+		// the limit on what the application may publish says nothing about what
+		// the broker may deliver: inbound payloads at and above it
+		cfg.MaxPayloadLen = int(r.between(1, 4))
+	}
 	hasHandler := r.chance(0.8)
 	if hasHandler {
 		h := 1
@@ -105,11 +110,26 @@ func genC04(r *Rng) *Scenario {
 	emptyUsed := false
 	sc.Ops = append(sc.Ops, Op{AtUs: 1, Actor: 0, Kind: "connect"})
 	t := rtt(cfg) + 10
-	if hasHandler && r.chance(0.3) {
-		sc.Ops = append(sc.Ops, Op{AtUs: t + r.between(0, 2000), Actor: 1, Kind: "handle", Handler: 2})
-	}
 	n := int(r.between(1, 10))
+	// the handler is replaced (or removed, or registered for the first time) on
+	// the live connection, in a gap of the arrival sequence
+	changeAt := -1
+	if r.chance(0.4) {
+		changeAt = r.IntN(n + 1)
+	}
+	change := func() {
+		t += 600
+		h := 2
+		if cfg.SlowHandlerUs == 0 && r.chance(0.3) {
+			h = 0
+		}
+		sc.Ops = append(sc.Ops, Op{AtUs: t + cfg.LatB2CUs, Actor: 1, Kind: "handle", Handler: h})
+		t += 600
+	}
 	for i := 0; i < n; i++ {
+		if i == changeAt {
+			change()
+		}
 		if r.chance(0.6) {
 			t += r.between(0, 400)
 		}
@@ -134,6 +154,9 @@ func genC04(r *Rng) *Scenario {
 			emptyUsed = true
 		}
 		sc.Script = append(sc.Script, o)
+	}
+	if changeAt == n {
+		change()
 	}
 	if r.chance(0.15) {
 		sc.Faults = append(sc.Faults, Fault{Kind: "writeErr", Conn: 1, N: int(r.between(1, int64(n))), Prefix: int(r.between(0, 3))})
